@@ -119,15 +119,17 @@ fn build_specification(guard: &StringGuard) -> Result<Option<Specification>, syn
             let has_trim = relevant_sanitizers
                 .iter()
                 .any(|s| matches!(s, RelevantSanitizer::Trim));
+            // `not_empty` and `len_char_min` both set a minimum: the effective one is the greatest.
             let min_len = relevant_validators
                 .iter()
-                .find_map(|v| {
+                .filter_map(|v| {
                     if let RelevantValidator::LenCharMin(value) = v {
                         Some(value.clone())
                     } else {
                         None
                     }
                 })
+                .reduce(max_len_char_min)
                 .unwrap_or_else(|| ValueOrExpr::Value(0));
             let max_len = relevant_validators
                 .iter()
@@ -147,6 +149,13 @@ fn build_specification(guard: &StringGuard) -> Result<Option<Specification>, syn
             };
             Ok(Some(spec))
         }
+    }
+}
+
+fn max_len_char_min(a: ValueOrExpr<usize>, b: ValueOrExpr<usize>) -> ValueOrExpr<usize> {
+    match (a, b) {
+        (ValueOrExpr::Value(a), ValueOrExpr::Value(b)) => ValueOrExpr::Value(a.max(b)),
+        (a, b) => ValueOrExpr::Expr(syn::parse_quote!(::core::cmp::max(#a, #b))),
     }
 }
 
